@@ -29,7 +29,7 @@ VARIABLES
   owed,     \* [<<t,id>> -> channel instances that existed when it was published]
   copying,  \* [t -> [id, rem]]: the message the topic pump holds and the channels still to get a copy
   chan,     \* [c -> [t, st, paused, ppend, emptying, recv, nreq, nto]]
-  top,      \* [t -> [paused]]      "no" | "pending" | "yes"
+  top,      \* [t -> [paused, gone]]   paused: "no" | "pending" | "yes"; gone: its close / deletion has begun
   cust,     \* [<<c,id>> -> [loc, k, att, pri, dts, mark, via, t0, d0]]
   cl,       \* [k -> [c, tmo, sample, rdy, pend, ready, sends, nfin, nreq, nmsg]]
   done,     \* [k -> set of <<id, kind>>]: what k's commands achieved since its last command completed
@@ -71,7 +71,7 @@ APutBegin(t, id, info) ==
   /\ minfo' = minfo @@ (<<t, id>> :> info)
   /\ tq' = tq \cup {<<t, id>>}
   /\ owed' = owed @@ (<<t, id>> :> {c \in DOMAIN chan : chan[c].t = t /\ chan[c].st = "live"})
-  /\ top' = IF Has(top, t) THEN top ELSE top @@ (t :> [paused |-> "no"])
+  /\ top' = IF Has(top, t) THEN top ELSE top @@ (t :> [paused |-> "no", gone |-> FALSE])
   /\ UNCHANGED <<copying, chan, cust, cl, done, stash>>
 
 APutEnd(t, id, ok) ==
@@ -110,7 +110,7 @@ ACopied(t, id) ==
   /\ UNCHANGED <<minfo, tq, owed, chan, top, cust, cl, done, stash>>
 
 ATPauseBegin(t, p) ==
-  /\ top' = Put(top, t, [paused |-> IF p THEN "pending" ELSE "no"])
+  /\ top' = Put(top, t, [paused |-> IF p THEN "pending" ELSE "no", gone |-> Has(top, t) /\ top[t].gone])
   /\ UNCHANGED <<minfo, tq, owed, copying, chan, cust, cl, done, stash>>
 ATPauseEnd(t, p) ==
   /\ top' = IF p /\ Has(top, t) /\ top[t].paused = "pending" THEN [top EXCEPT ![t].paused = "yes"] ELSE top
@@ -439,6 +439,17 @@ AHStatsT(t, count, bytes, depth) ==
        /\ count = Cardinality(ack)
        /\ bytes = SumLen(ack)
        /\ depth = Cardinality({x \in tq : x[1] = t})
+  /\ UNCHANGED vars
+
+\* Topic.exit: from here on the topic may be missing from what the daemon reports
+ATExit(t) ==
+  /\ top' = Put(top, t, [paused |-> IF Has(top, t) THEN top[t].paused ELSE "no", gone |-> TRUE])
+  /\ UNCHANGED <<minfo, tq, owed, copying, chan, cust, cl, done, stash>>
+
+\* C13: /stats lists every topic that has accepted messages and is not going away -- with or without channels
+AHStatsTopics(ts) ==
+  /\ \A t \in DOMAIN top :
+        (~top[t].gone /\ \E x \in DOMAIN minfo : x[1] = t /\ minfo[x].acked) => t \in ts
   /\ UNCHANGED vars
 
 \* C01/C09: an OK to the publisher means the topic really accepted the message
